@@ -20,10 +20,14 @@ func (q queryServer) ListBid(ctx context.Context, req *types.QueryAllBidRequest)
 		return nil, status.Error(codes.InvalidArgument, "invalid request")
 	}
 
+	// bids are stored with the canonical spelling of the bidder address
+	var bidder string
 	if req.Bidder != "" {
-		if _, err := sdk.AccAddressFromBech32(req.Bidder); err != nil {
+		addr, err := sdk.AccAddressFromBech32(req.Bidder)
+		if err != nil {
 			return nil, status.Errorf(codes.InvalidArgument, "invalid bidder address %s", req.Bidder)
 		}
+		bidder = addr.String()
 	}
 
 	var isMatched bool
@@ -40,7 +44,7 @@ func (q queryServer) ListBid(ctx context.Context, req *types.QueryAllBidRequest)
 		q.k.Bid,
 		req.Pagination,
 		func(_ collections.Pair[uint64, uint64], bid types.Bid) (bool, error) {
-			if req.Bidder != "" && bid.Bidder != req.Bidder {
+			if req.Bidder != "" && bid.Bidder != bidder {
 				return false, nil
 			}
 
